@@ -85,8 +85,18 @@ fn cause_matches(e: &StunParseError, c: &Cause) -> bool {
     }
 }
 
+/// How much of the exposure is prescribed: C10 prescribes the exact visible list; C02 only that
+/// what is exposed is faithful to the buffer (all attributes up to and including the first
+/// integrity attribute, in order; whatever is exposed after that must be attributes of the
+/// buffer, in buffer order) and that lookups return the first match of what iteration shows.
+#[derive(Clone, Copy, PartialEq, Eq)]
+pub enum Exposure {
+    Exact,
+    Faithful,
+}
+
 /// compare everything the API exposes of an accepted message with the reference decoding
-pub fn compare_accepted(msg: &Message, bytes: &[u8], r: &RefMsg, sigp: &str) -> TestResult {
+pub fn compare_accepted(msg: &Message, bytes: &[u8], r: &RefMsg, sigp: &str, mode: Exposure) -> TestResult {
     let sig = |s: &str| format!("{}-{}", sigp, s);
     ensure!(
         class_num(msg.class()) == r.class && msg.method() == r.method && class_num(msg.get_type().class()) == r.class,
@@ -102,77 +112,90 @@ pub fn compare_accepted(msg: &Message, bytes: &[u8], r: &RefMsg, sigp: &str) -> 
     let limit = bytes.len() / 4 + 2;
     let got: Vec<RawAttribute> = msg.iter_attributes().take(limit + 1).collect();
     ensure!(got.len() <= limit, &sig("iter"), "iteration yields more attributes than the buffer can hold");
-    let want = r.exposed_attrs();
     let show = |v: &Vec<RawAttribute>| {
         v.iter()
             .map(|a| format!("{:#06x}[{}]", a.get_type().value(), a.value.len()))
             .collect::<Vec<_>>()
             .join(",")
     };
-    let show_ref = || {
-        want.iter()
-            .map(|a| format!("{:#06x}[{}]", a.ty, a.len))
-            .collect::<Vec<_>>()
-            .join(",")
+    let show_all = || r.attrs.iter().map(|a| format!("{:#06x}[{}]", a.ty, a.len)).collect::<Vec<_>>().join(",");
+    // what must be visible
+    let want: Vec<&crate::refstun::RefAttr> = match mode {
+        Exposure::Exact => r.exposed_attrs(),
+        Exposure::Faithful => {
+            let first_int = r.attrs.iter().position(|a| a.ty == refstun::T_MI || a.ty == refstun::T_SHA256);
+            let n = first_int.map(|i| i + 1).unwrap_or(r.attrs.len());
+            r.attrs[..n].iter().collect()
+        }
+    };
+    let show_want = || want.iter().map(|a| format!("{:#06x}[{}]", a.ty, a.len)).collect::<Vec<_>>().join(",");
+    let same = |g: &RawAttribute, w: &crate::refstun::RefAttr| {
+        g.get_type().value() == w.ty && *g.value == *w.value(bytes) && g.length() as usize == w.len && g.header.length() as usize == w.len
     };
     ensure!(
-        got.len() == want.len(),
+        got.len() >= want.len() && got.iter().zip(want.iter()).all(|(g, w)| same(g, w)) && (mode == Exposure::Faithful || got.len() == want.len()),
         &sig("attrs"),
-        "iteration exposes [{}], the buffer holds (visible part) [{}]",
+        "iteration exposes [{}]; the buffer holds [{}] of which [{}] must be visible{}",
         show(&got),
-        show_ref()
+        show_all(),
+        show_want(),
+        if mode == Exposure::Exact { " and nothing else" } else { " (in this order, first)" }
     );
-    for (g, w) in got.iter().zip(want.iter()) {
-        ensure!(
-            g.get_type().value() == w.ty && *g.value == *w.value(bytes) && g.length() as usize == w.len && g.header.length() as usize == w.len,
-            &sig("attrs"),
-            "iteration exposes [{}], the buffer holds (visible part) [{}]; attribute {:#06x} value {} vs {}",
-            show(&got),
-            show_ref(),
-            w.ty,
-            hex_short(&g.value),
-            hex_short(w.value(bytes))
-        );
+    if mode == Exposure::Faithful {
+        // anything exposed beyond the prescribed part must be attributes of the buffer, in buffer order
+        let mut cursor = want.len();
+        for g in &got[want.len()..] {
+            let pos = (cursor..r.attrs.len()).find(|&i| same(g, &r.attrs[i]));
+            match pos {
+                Some(i) => cursor = i + 1,
+                None => {
+                    return Err(Fail::new(
+                        &sig("attrs"),
+                        format!("iteration exposes [{}] which is not a subsequence of the buffer's attributes [{}]", show(&got), show_all()),
+                    ))
+                }
+            }
+        }
     }
-    // lookups: first match for present types, nothing for hidden/absent ones
+    // lookups return the first match of what iteration shows, nothing for types that are not shown
     let mut probe: Vec<u16> = r.attrs.iter().map(|a| a.ty).collect();
     probe.extend_from_slice(&[0x0006, 0x0008, 0x001C, 0x8028, 0x8022, 0x7777, 0x0000, 0xffff]);
     probe.sort();
     probe.dedup();
     for ty in probe {
-        let first = r.first_exposed(ty);
-        let got = msg.raw_attribute(AttributeType::new(ty));
+        let first = got.iter().find(|a| a.get_type().value() == ty);
+        let looked = msg.raw_attribute(AttributeType::new(ty));
         let has = msg.has_attribute(AttributeType::new(ty));
-        match (first, &got) {
+        match (first, &looked) {
             (None, None) => {}
             (Some(w), Some(g)) => ensure!(
-                g.get_type().value() == ty && *g.value == *w.value(bytes),
+                g.get_type().value() == ty && *g.value == *w.value,
                 &sig("lookup"),
-                "raw_attribute({:#06x}) returned value {}, the first such attribute in the buffer is {}",
+                "raw_attribute({:#06x}) returned value {}, the first such attribute that iteration shows is {}",
                 ty,
                 hex_short(&g.value),
-                hex_short(w.value(bytes))
+                hex_short(&w.value)
             ),
             (Some(_), None) => {
                 return Err(Fail::new(
                     &sig("lookup"),
-                    format!("raw_attribute({:#06x}) found nothing although the attribute is in the visible part [{}]", ty, show_ref()),
+                    format!("raw_attribute({:#06x}) found nothing although iteration shows [{}]", ty, show(&got)),
                 ))
             }
             (None, Some(_)) => {
                 return Err(Fail::new(
                     &sig("lookup"),
-                    format!("raw_attribute({:#06x}) returned an attribute that is not in the visible part [{}]", ty, show_ref()),
+                    format!("raw_attribute({:#06x}) returned an attribute that iteration does not show [{}]", ty, show(&got)),
                 ))
             }
         }
         ensure!(
             has == first.is_some(),
             &sig("lookup"),
-            "has_attribute({:#06x}) = {} but visible part is [{}]",
+            "has_attribute({:#06x}) = {} but iteration shows [{}]",
             ty,
             has,
-            show_ref()
+            show(&got)
         );
     }
     Ok(())
@@ -191,7 +214,7 @@ pub fn check_bytes(bytes: &[u8], st: &mut Stats) -> TestResult {
     let reference = refstun::parse(bytes);
     match (&lib, &reference) {
         (Ok(msg), RefParse::Accept(r)) => {
-            compare_accepted(msg, bytes, r, "c02")?;
+            compare_accepted(msg, bytes, r, "c02", Exposure::Faithful)?;
             st.class("accepted");
             if !r.attrs.is_empty() {
                 st.class("accepted with attributes");
@@ -206,7 +229,7 @@ pub fn check_bytes(bytes: &[u8], st: &mut Stats) -> TestResult {
                 let declared = u16::from_be_bytes([bytes[2], bytes[3]]) as usize;
                 match refstun::parse(&bytes[..declared + 20]) {
                     RefParse::Accept(r) => {
-                        compare_accepted(msg, bytes, &r, "c02-excess").map_err(|mut f| {
+                        compare_accepted(msg, bytes, &r, "c02-excess", Exposure::Faithful).map_err(|mut f| {
                             f.msg = format!(
                                 "buffer of {} bytes declares {}: bytes after the declared length are interpreted as attributes: {}",
                                 bytes.len(),
@@ -343,13 +366,13 @@ pub fn run(ctx: &Ctx) -> EvidenceMeta {
     ctx.enumerate("corners", &fixed, test);
     ctx.proptest(
         "grammar",
-        ctx.n(14_000, 1_400_000),
+        ctx.n(120_000, 4_000_000),
         || gen::wire_spec_mixed(7).prop_map(Case::Wire),
         test,
     );
     ctx.proptest(
         "mutated-builder-output",
-        ctx.n(6_000, 600_000),
+        ctx.n(40_000, 1_500_000),
         || {
             (gen::msg_spec(gen::seal_strategy(false, false), 5, 0), gen::byte_mutations(3))
                 .prop_map(|(spec, muts)| Case::Mutated { spec, muts })
